@@ -227,12 +227,18 @@ pub fn run(tier: Tier, seed: u64, replay: Option<String>) -> i32 {
         "members of a [[ ]] group are members of the enclosing object in JER (X.697: version brackets have no effect on the encoding)".into(),
     ];
     let e = |m: &ModuleSet| eval(m);
-    let run = GenericRun { gcfg: gen_cfg(), n: tier.pick(6000, 100000), stream_len: 4000, salt: 18, shrink_budget: 300, max_violations: 3, eval: &e };
+    let run = GenericRun { gcfg: gen_cfg(), n: tier.pick(30000, 300000), stream_len: 4000, salt: 18, shrink_budget: 300, max_violations: 3, eval: &e };
     if let Some(p) = replay {
         let r = replay_generic(&mut ctx, &run, "c18", &p);
         let code = ctx.finish();
         return if r == 2 { 2 } else { code };
     }
-    run_generic(&mut ctx, &run, "c18");
+    // a fifth of the cases with extension groups (finding F-ts-group is re-confirmed there); the
+    // rest without, so that the finding does not mask other discrepancies of the same module set
+    let with_groups = GenericRun { n: run.n / 5, ..run };
+    run_generic(&mut ctx, &with_groups, "c18");
+    let without = GenericRun { gcfg: GenCfg { groups: false, ..gen_cfg() }, n: run.n - run.n / 5, stream_len: 4000, salt: 1018, shrink_budget: 300, max_violations: 3, eval: &e };
+    ctx.class_n("excluded_by_finding[F-ts-group]:cases_generated_without_groups", without.n as u64);
+    run_generic_no_replay(&mut ctx, &without, "c18");
     ctx.finish()
 }
